@@ -5,6 +5,7 @@
   `exec.sys::truncate_stack`, regenerated on every run).
 -/
 import Miden.Lemmas.Pure
+import Miden.Lemmas.Trunc
 import Miden.Generated.StdlibSys
 namespace Miden.C18
 open Miden
@@ -38,6 +39,33 @@ theorem truncate_loop_measure (r : List Nat) (h : (padN 16 r).length ≠ 16) :
   unfold padN at *
   simp only [List.length_append, List.length_replicate] at *
   omega
+
+/-- **truncate_stack leaves exactly the original top 16 elements for any deeper stack.**
+    `Generated.sys_truncate_stack` is the MAST the real assembler produces for
+    `exec.sys::truncate_stack` (regenerated on every run); `Vm.exec` is the executor model with clock,
+    cycle limit and decoder rows.  For every environment, fuel, initial state whose stack is at least
+    16 deep (any depth, any contents) and whose frame pointer leaves room for the procedure's four
+    locals: if the execution completes, the final stack is the original top 16 elements, and the frame
+    pointer and the context are restored.  (Proof: clock erasure for the three spans, symbolic
+    execution of prologue and epilogue on (stack, fmp, memory) with memory as a map, induction on the
+    depth for the `while.true` loop.) -/
+theorem truncate_stack_exact (env : Env) (fuel : Nat) (vm vm' : Vm) (hl : 16 ≤ vm.stack.length)
+    (hf1 : FMP_MIN ≤ vm.fmp) (hf2 : vm.fmp + 4 ≤ FMP_MAX)
+    (h : Vm.exec env fuel Generated.sys_truncate_stack vm = .ok vm') :
+    vm'.stack = vm.stack.take 16 ∧ vm'.fmp = vm.fmp ∧ vm'.ctx = vm.ctx :=
+  Trunc.truncate_stack_spec env fuel vm vm' hl hf1 hf2 h
+
+/-- The loop alone: from any depth it ends with depth exactly 16 (frame pointer, memory, context
+    untouched). -/
+theorem truncate_loop_exact (env : Env) (fuel : Nat) (vm vm' : Vm) (c : Nat) (t : List Nat) (F : Nat) (M : Mem)
+    (C : Nat) (hd : Trunc.D vm (c :: t) F M C) (h16 : 16 ≤ t.length) (h1 : c = 1 ↔ t.length ≠ 16)
+    (h0 : c = 0 ↔ t.length = 16) (h : Vm.exec env fuel (.loop (.span Trunc.bodyB)) vm = .ok vm') :
+    ∃ s', Trunc.D vm' s' F M C ∧ s'.length = 16 :=
+  Trunc.loop_spec env fuel vm vm' c t F M C hd h16 h1 h0 h
+
+-- Non-vacuity: a concrete run of the executor model on the regenerated MAST completes and truncates.
+example : ((Vm.exec {} 40 Generated.sys_truncate_stack { stack := List.range 23 }).toOption.map (·.stack))
+    = some (List.range 16) := by decide
 
 example : (runPure truncLoopBody (List.range 23)).toOption = some (1 :: (List.range 23).drop 4) := by decide
 example : (runPure truncLoopBody (List.range 18)).toOption
